@@ -103,6 +103,9 @@ pub struct Driver {
     pub probes: Probes,
     pub probe_seed: u64,
     pub light: bool,
+    /// keep the observation after every step (metamorphic engines)
+    pub keep_obs: bool,
+    pub obs_log: Vec<Option<Obs>>,
     // --- monitors ---
     /// C04: per (queue, incarnation) high-water mark
     pub hw: BTreeMap<(String, u32), u64>,
@@ -135,6 +138,8 @@ impl Driver {
             probes: Probes::default(),
             probe_seed: case.probe_seed,
             light: false,
+            keep_obs: false,
+            obs_log: Vec::new(),
             hw: BTreeMap::new(),
             cursor: None,
             rec_files: BTreeMap::new(),
@@ -162,6 +167,8 @@ impl Driver {
             probes: Probes::default(),
             probe_seed,
             light: false,
+            keep_obs: false,
+            obs_log: Vec::new(),
             hw: BTreeMap::new(),
             cursor: None,
             rec_files: BTreeMap::new(),
@@ -192,6 +199,8 @@ impl Driver {
             probes: Probes::default(),
             probe_seed,
             light: false,
+            keep_obs: false,
+            obs_log: Vec::new(),
             hw: BTreeMap::new(),
             cursor,
             rec_files: BTreeMap::new(),
@@ -281,6 +290,9 @@ impl Driver {
                     self.stopped = true;
                 }
             }
+        }
+        if self.keep_obs {
+            self.obs_log.push(obs_opt.clone());
         }
         self.steps.push(Step { op: op.clone(), outcome: outcome.clone(), expected: expected.clone(), eff_start, eff_end, open_start, policy });
         if self.stopped {
